@@ -154,6 +154,14 @@ func c09checkContext(o c09opts, c map[string]any) (sig string, msg string) {
 		if got != keys {
 			return "snapshots-keys", fmt.Sprintf("binding %s (%s) snapshots keys %q, want %q", b, ty, got, keys)
 		}
+		// every snapshot is a list of objects (empty when there is nothing), never null
+		if m, _ := c["snapshots"].(map[string]any); m != nil {
+			for k, v := range m {
+				if _, isList := v.([]any); !isList {
+					return "snapshot-not-a-list", fmt.Sprintf("binding %s (%s): snapshots.%s is %v, want a list", b, ty, k, v)
+				}
+			}
+		}
 		return "", ""
 	}
 	webIncl := ""
@@ -351,6 +359,22 @@ func c09run(o c09opts) (sig, what string, seen map[string]int, panics []string) 
 			notes = append(notes, "webhook init: "+err.Error())
 			return
 		}
+		webhooks := func(uid string) {
+			for _, path := range []string{"/hooks/val-example-com", "/hooks/mut-example-com"} {
+				body := `{"apiVersion":"admission.k8s.io/v1","kind":"AdmissionReview","request":{"uid":"` + uid + `","operation":"CREATE","object":{"apiVersion":"v1","kind":"ConfigMap","metadata":{"name":"x"}}}}`
+				req := httptest.NewRequest(http.MethodPost, path, bytes.NewBufferString(body))
+				req.Header.Set("Content-Type", "application/json")
+				fx.op.AdmissionWebhookManager.Handler.Router.ServeHTTP(httptest.NewRecorder(), req)
+			}
+			cbody := `{"apiVersion":"apiextensions.k8s.io/v1","kind":"ConversionReview","request":{"uid":"` + uid + `","desiredAPIVersion":"stable.example.com/v2","objects":[{"apiVersion":"stable.example.com/v1","kind":"CronTab","metadata":{"name":"x"}}]}}`
+			creq := httptest.NewRequest(http.MethodPost, "/crontabs.stable.example.com", bytes.NewBufferString(cbody))
+			creq.Header.Set("Content-Type", "application/json")
+			fx.op.ConversionWebhookManager.Handler.Router.ServeHTTP(httptest.NewRecorder(), creq)
+		}
+		// webhook requests can arrive as soon as the webhooks are registered, before the hook's
+		// kubernetes bindings have been enabled by the main queue: the contexts follow the same rules
+		webhooks("early")
+		early := len(fx.Runs)
 		fx.start()
 		quiet := func() bool {
 			if hub.Pending() || hub.Busy != 0 {
@@ -359,7 +383,7 @@ func c09run(o c09opts) (sig, what string, seen map[string]int, panics []string) 
 			q := fx.op.TaskQueues.GetMain()
 			return q != nil && q.IsEmpty() && idle(fx, "main")
 		}
-		if !vrt.WaitFor("startup", 30*time.Minute, func() bool { return quiet() && len(fx.Runs) >= 2 && schedulemanager.ZZJobs(fx.op.ScheduleManager) >= 1 }) {
+		if !vrt.WaitFor("startup", 30*time.Minute, func() bool { return quiet() && len(fx.Runs) >= early+2 && schedulemanager.ZZJobs(fx.op.ScheduleManager) >= 1 }) {
 			notes = append(notes, "startup did not finish")
 			return
 		}
@@ -395,16 +419,7 @@ func c09run(o c09opts) (sig, what string, seen map[string]int, panics []string) 
 			hub.Notify(cmGVR, "delete", nil, old)
 		})
 		step(func() { schedulemanager.ZZRunJobs(fx.op.ScheduleManager) })
-		for _, path := range []string{"/hooks/val-example-com", "/hooks/mut-example-com"} {
-			body := `{"apiVersion":"admission.k8s.io/v1","kind":"AdmissionReview","request":{"uid":"u1","operation":"CREATE","object":{"apiVersion":"v1","kind":"ConfigMap","metadata":{"name":"x"}}}}`
-			req := httptest.NewRequest(http.MethodPost, path, bytes.NewBufferString(body))
-			req.Header.Set("Content-Type", "application/json")
-			fx.op.AdmissionWebhookManager.Handler.Router.ServeHTTP(httptest.NewRecorder(), req)
-		}
-		cbody := `{"apiVersion":"apiextensions.k8s.io/v1","kind":"ConversionReview","request":{"uid":"c1","desiredAPIVersion":"stable.example.com/v2","objects":[{"apiVersion":"stable.example.com/v1","kind":"CronTab","metadata":{"name":"x"}}]}}`
-		creq := httptest.NewRequest(http.MethodPost, "/crontabs.stable.example.com", bytes.NewBufferString(cbody))
-		creq.Header.Set("Content-Type", "application/json")
-		fx.op.ConversionWebhookManager.Handler.Router.ServeHTTP(httptest.NewRecorder(), creq)
+		webhooks("u1")
 		for _, r := range fx.Runs {
 			if r.FilesOK != "" {
 				notes = append(notes, "file: "+r.FilesOK)
